@@ -20,7 +20,7 @@ def main():
     a = ap.parse_args()
     if a.gen:
         import translators
-        translators.gen_all(strict=False)
+        translators.gen_all(strict=False, which=("Consts", "Effects"))
         return 0
     if a.scan:
         bad = common.scan_forbidden()
